@@ -143,6 +143,47 @@ pub fn run(args: &[String]) {
             case, if with_terminal { format!("{:?}+terminal@{}", kind, tc) } else { format!("{:?}", kind) }, method_name(method), x0, jnum(xend), jnum(rtol), jnum(atol), status, rec.cbs.len().saturating_sub(1), bad.is_none(), bad.unwrap_or_default()
         );
     }
+    // directed: Radau at coarse tolerances on stiff nonlinear problems, where the Newton iteration is predicted to converge
+    // too slowly and the step size is reduced in mid-iteration: every delivered interval [xold, x] must be the one its
+    // interpolant covers, and the dense output must reach the last reported time
+    {
+        std::panic::set_hook(Box::new(|_| {}));
+        struct Cubic { a: f64, which: usize }
+        impl IVP for Cubic {
+            fn ode(&self, x: f64, y: &[f64], d: &mut [f64]) { d[0] = if self.which == 0 { self.a * (x.cos() - y[0] * y[0] * y[0]) } else { -self.a * (y[0].exp() - 1.0) }; }
+        }
+        let mut k = 0;
+        for (which, y0) in [(0usize, 2.0f64), (1, 1.5)] {
+            for a in [10.0, 30.0, 100.0] {
+                for (rtol, first) in [(1e-2, None), (1e-1, None), (1e-3, None), (1e-2, Some(0.3)), (1e-2, Some(2.0))] {
+                    let f = Cubic { a, which };
+                    let mut rec = Recorder::new();
+                    let res = RADAU::builder().mass_storage(MatrixStorage::Identity).maybe_first_step(first).build().solve(&f, 0.0, &[y0], 1.5, rtol.into(), (rtol * 1e-3).into(), Some(&mut rec));
+                    let status = res.as_ref().map(|r| format!("{:?}", r.status)).unwrap_or_else(|e| format!("Err({:?})", e));
+                    let mut bad: Option<String> = None;
+                    for j in 1..rec.cbs.len() {
+                        let (cb, prev) = (&rec.cbs[j], &rec.cbs[j - 1]);
+                        n_cb += 1;
+                        if !cb.has_interp { bad = Some(format!("callback {} has no interpolant", j)); break; }
+                        if !close(&cb.samples[0], &prev.y, 1e-9) { bad = Some(format!("step {}: interpolant at xold = {} gives {:?}, stored state {:?}", j, cb.xold, cb.samples[0], prev.y)); break; }
+                        if !close(&cb.samples[4], &cb.y, 1e-9) { bad = Some(format!("step {} delivered as [{}, {}]: its interpolant at x gives {:?}, the delivered state is {:?}", j, cb.xold, cb.x, cb.samples[4], cb.y)); break; }
+                    }
+                    if bad.is_none() {
+                        let mut o = Options::builder().method(Method::RADAU).rtol(rtol).atol(rtol * 1e-3).dense_output(true).build();
+                        o.first_step = first;
+                        if let Ok(sol) = solve_ivp(&f, 0.0, 1.5, &[y0], o) {
+                            bad = dense_invariants(&sol);
+                            if bad.is_none() && sol.status != Status::Success && (sol.t.last().unwrap() - 1.5).abs() < 1e-14 { bad = Some(format!("status {:?} although the last sample is xend", sol.status)); }
+                        }
+                    }
+                    if bad.is_some() { n_fail += 1; }
+                    println!("{{\"kind\":\"dense\",\"case\":\"radau-coarse-{}\",\"problem\":\"{} a={}\",\"method\":\"RADAU\",\"x0\":0,\"xend\":1.5,\"rtol\":{},\"first_step\":{},\"status\":\"{}\",\"finding_key\":\"c06-radau-slow-convergence\",\"ok\":{},\"why\":{:?}}}",
+                        k, ["a(cos x - y^3)", "-a(e^y - 1)"][which], a, jnum(rtol), first.map(jnum).unwrap_or("null".into()), status, bad.is_none(), bad.unwrap_or_default());
+                    k += 1;
+                }
+            }
+        }
+    }
     // directed: runs whose step grid contains a step of rounding size (a landing step of one ulp after max_step-limited
     // steps; a tiny first_step): the dense output must still cover [x0, last reported time]
     {
